@@ -64,10 +64,10 @@ def report (doc : J) : Json :=
   Json.mkObj [("doc", enc doc), ("closed", Json.bool (closedB doc)), ("dangling", strs (dangling doc)),
               ("params_ok", Json.bool (paramsDeclaredB doc)), ("ops", pairs (allOps doc))]
 
-def exceptJson (r : Except String Json) : Json :=
+def exceptJson (r : Except PyErr Json) : Json :=
   match r with
   | .ok j => j
-  | .error e => Json.mkObj [("raises", Json.str e)]
+  | .error e => Json.mkObj [("raises", Json.str e.name)]
 
 def ops : List (String × Handler) := [
   ("c16.emit", fun j => do
